@@ -65,3 +65,17 @@ CLAIMED["C07"] = {
             "passed the acceptable-master check when selected (validated by the streams, not yet a theorem).",
     "technique": "Lean 4 theorems (case analysis per handler, induction over insertion derivations) + two-run differential oracle",
 }
+
+CLAIMED["C09"] = {
+    "text": "Proof. Lean theorems per handler (handle_sync, handle_follow_up, handle_delay_timestamp, handle_delay_resp with "
+            "extract_measurement / handle_time_measurement): for every slave state, history and message, the stored timestamps carry the "
+            "provenance invariant (they come from messages of the parent with the stored sequence id) and every measurement handed to the "
+            "filter equals the IEEE formula (Spec/Formulas.lean, exact 2^-32 ns fixed point, asymmetry applied) of ONE Sync[/Follow_Up] "
+            "pair or ONE Delay_Req/Delay_Resp pair with equal sequence ids; emitting a measurement empties the pair (each message used "
+            "once). Tie: the recording filter's measurements are compared bit-exactly with the model's on generated interleavings; an "
+            "independent Rust oracle re-derives each measurement from the logged frames.",
+    "note": "Trusted: Lean kernel; Spec/Formulas.lean; generators. The step theorems are stated per handler under the invariants "
+            "PeerIdle / incomplete-other-pair, which the handlers re-establish; their composition over whole histories is by the "
+            "obvious induction and is exercised, not separately stated.",
+    "technique": "Lean 4 theorems (provenance invariants, exact integer arithmetic) + bit-exact differential correspondence + independent oracle",
+}
